@@ -56,7 +56,7 @@ let () =
               (String.concat " " items) (b2i (wr_usk u = bs)) (b2i (int_of_nat (len_usk sz u) = n)))
        | "ENC" -> (match whole (r_xenc sz bs) with
           | None -> print_endline "ENC PARSE-ERROR"
-          | Some x -> Printf.printf "ENC l=1 t=%d h=%d n=%d|rt=%d|ln=%d\n" (List.length x.wx_c) (b2i x.wx_hyb) (List.length x.wx_entries)
+          | Some x -> Printf.printf "ENC l=1 t=%d h=%d n=%d tag=%s|rt=%d|ln=%d\n" (List.length x.wx_c) (b2i x.wx_hyb) (List.length x.wx_entries) (t8 "g" x.wx_tag)
               (b2i (wr_xenc x = bs)) (b2i (int_of_nat (len_xenc sz x) = n)))
        | "HDR" -> (match whole (r_header sz bs) with
           | None -> print_endline "HDR PARSE-ERROR"
